@@ -177,6 +177,12 @@ class Disk(object):
         return "ok"
 
 
+def _sim_oserror(cls, *args):
+    e = cls(*args)
+    e._xsim = True
+    return e
+
+
 class SimCrash(BaseException):
     """the simulated process dies here: user-space buffers are lost, the disk keeps what it has"""
 
@@ -209,6 +215,12 @@ class SimRaw(io.RawIOBase):
     def seekable(self):
         return True
 
+    def fileno(self):
+        return FAKE_FD_BASE + (id(self) % 100000)
+
+    def isatty(self):
+        return False
+
     def tell(self):
         return self.pos
 
@@ -220,7 +232,7 @@ class SimRaw(io.RawIOBase):
         else:
             np_ = len(self.buf) + offset
         if np_ < 0:
-            raise OSError(errno.EINVAL, "negative seek position")
+            raise _sim_oserror(OSError, errno.EINVAL, "negative seek position")
         self.pos = np_
         return self.pos
 
@@ -238,7 +250,7 @@ class SimRaw(io.RawIOBase):
     def write(self, b):
         d = self.disk
         if d.frozen:
-            raise OSError(errno.EIO, "process crashed (simulated): no further I/O")
+            raise _sim_oserror(OSError, errno.EIO, "process crashed (simulated): no further I/O")
         if d.crash_at is not None and d.raw_writes >= d.crash_at:
             d.frozen = True
             d.fire("crash_mid_save")
@@ -248,12 +260,12 @@ class SimRaw(io.RawIOBase):
         phase = "close" if d.in_close else "write"
         if dec_ == "eintr":
             d.fire("eintr_write")
-            raise InterruptedError(errno.EINTR, "simulated EINTR")
+            raise _sim_oserror(InterruptedError, errno.EINTR, "simulated EINTR")
         if dec_ == "eio":
             d.fire("eio_write")
             d.fire("surfaced_in_" + phase)
             d.unrecoverable = True
-            raise OSError(errno.EIO, "simulated EIO on write")
+            raise _sim_oserror(OSError, errno.EIO, "simulated EIO on write")
         n = len(b)
         if isinstance(dec_, list) and dec_[0] == "short":
             if dec_[1] < n:
@@ -268,14 +280,14 @@ class SimRaw(io.RawIOBase):
                 d.fire("enospc")
                 d.fire("surfaced_in_" + phase)
                 d.unrecoverable = True
-                raise OSError(errno.ENOSPC, "simulated ENOSPC")
+                raise _sim_oserror(OSError, errno.ENOSPC, "simulated ENOSPC")
             if grow > room:
                 n -= grow - room
                 if n <= 0:
                     d.fire("enospc")
                     d.fire("surfaced_in_" + phase)
                     d.unrecoverable = True
-                    raise OSError(errno.ENOSPC, "simulated ENOSPC")
+                    raise _sim_oserror(OSError, errno.ENOSPC, "simulated ENOSPC")
                 d.fire("enospc_partial")
         if self.pos > len(self.buf):
             self.buf.extend(b"\0" * (self.pos - len(self.buf)))
@@ -288,11 +300,11 @@ class SimRaw(io.RawIOBase):
         dec_ = d.next_decision()
         if dec_ == "eintr":
             d.fire("eintr_read")
-            raise InterruptedError(errno.EINTR, "simulated EINTR")
+            raise _sim_oserror(InterruptedError, errno.EINTR, "simulated EINTR")
         if dec_ == "eio":
             d.fire("eio_read")
             d.unrecoverable = True
-            raise OSError(errno.EIO, "simulated EIO on read")
+            raise _sim_oserror(OSError, errno.EIO, "simulated EIO on read")
         if d.replace_at is not None and d.raw_reads == d.replace_at and d.replace_with is not None:
             # the competing writer replaces the file while we are in the middle of reading it
             d.files[self.path] = bytearray(d.replace_with[0])
@@ -321,7 +333,7 @@ class SimRaw(io.RawIOBase):
             d.close_fail = False
             d.fire("close_fail")
             d.unrecoverable = True
-            raise OSError(errno.EIO, "simulated EIO on close")
+            raise _sim_oserror(OSError, errno.EIO, "simulated EIO on close")
 
 
 class SimText(io.TextIOWrapper):
@@ -360,12 +372,12 @@ def make_open(disk, real_open):
             disk.open_err = None
             disk.fire("open_" + e.lower())
             disk.unrecoverable = True
-            raise OSError(getattr(errno, e), "simulated " + e, path)
+            raise _sim_oserror(OSError, getattr(errno, e), "simulated " + e, path)
         if m == "r" and path not in disk.files:
-            raise FileNotFoundError(errno.ENOENT, "No such file or directory (simulated disk)", path)
+            raise _sim_oserror(FileNotFoundError, errno.ENOENT, "No such file or directory (simulated disk)", path)
         if m == "x":
             if path in disk.files:
-                raise FileExistsError(errno.EEXIST, "File exists (simulated disk)", path)
+                raise _sim_oserror(FileExistsError, errno.EEXIST, "File exists (simulated disk)", path)
             m = "w"
         raw = SimRaw(disk, path, m, plus)
         disk.open_raws.append(raw)
@@ -398,7 +410,10 @@ def make_os_seams(disk):
     import stat as _stat
     real = {"exists": os.path.exists, "isfile": os.path.isfile, "getsize": os.path.getsize, "remove": os.remove,
             "unlink": os.unlink, "rename": os.rename, "replace": os.replace, "stat": os.stat, "lstat": os.lstat,
-            "access": os.access}
+            "access": os.access, "chmod": os.chmod, "utime": os.utime, "islink": os.path.islink,
+            "isdir": os.path.isdir, "lexists": os.path.lexists, "fsync": os.fsync, "fdatasync": os.fdatasync}
+    if hasattr(os, "chown"):
+        real["chown"] = os.chown
 
     def sim(pth):
         try:
@@ -422,7 +437,7 @@ def make_os_seams(disk):
         if q is None:
             return real["getsize"](pth)
         if q not in disk.files:
-            raise FileNotFoundError(errno.ENOENT, "No such file or directory (simulated disk)", q)
+            raise _sim_oserror(FileNotFoundError, errno.ENOENT, "No such file or directory (simulated disk)", q)
         return len(disk.files[q])
 
     def remove(pth, *a, **k):
@@ -430,7 +445,7 @@ def make_os_seams(disk):
         if q is None:
             return real["remove"](pth, *a, **k)
         if q not in disk.files:
-            raise FileNotFoundError(errno.ENOENT, "No such file or directory (simulated disk)", q)
+            raise _sim_oserror(FileNotFoundError, errno.ENOENT, "No such file or directory (simulated disk)", q)
         del disk.files[q]
 
     def rename(src, dst, *a, **k):
@@ -438,9 +453,9 @@ def make_os_seams(disk):
         if qs is None and qd is None:
             return real["rename"](src, dst, *a, **k)
         if qs is None or qd is None:
-            raise OSError(errno.EXDEV, "cross-device link (simulated disk)")
+            raise _sim_oserror(OSError, errno.EXDEV, "cross-device link (simulated disk)")
         if qs not in disk.files:
-            raise FileNotFoundError(errno.ENOENT, "No such file or directory (simulated disk)", qs)
+            raise _sim_oserror(FileNotFoundError, errno.ENOENT, "No such file or directory (simulated disk)", qs)
         disk.files[qd] = disk.files.pop(qs)
 
     def stat(pth, *a, **k):
@@ -448,15 +463,51 @@ def make_os_seams(disk):
         if q is None:
             return real["stat"](pth, *a, **k)
         if q not in disk.files:
-            raise FileNotFoundError(errno.ENOENT, "No such file or directory (simulated disk)", q)
+            raise _sim_oserror(FileNotFoundError, errno.ENOENT, "No such file or directory (simulated disk)", q)
         return os.stat_result((_stat.S_IFREG | 0o644, 1, 1, 1, 0, 0, len(disk.files[q]), 0, 0, 0))
 
     def access(pth, mode, *a, **k):
         q = sim(pth)
         return (q in disk.files) if q is not None else real["access"](pth, mode, *a, **k)
 
-    return real, {"exists": exists, "isfile": isfile, "getsize": getsize, "remove": remove, "unlink": remove,
-                  "rename": rename, "replace": rename, "stat": stat, "lstat": stat, "access": access}
+    def noop_on_file(name):
+        def f(pth, *a, **k):
+            q = sim(pth) if not isinstance(pth, int) else None
+            if q is None:
+                return real[name](pth, *a, **k)
+            if q not in disk.files:
+                raise _sim_oserror(FileNotFoundError, errno.ENOENT, "No such file or directory (simulated disk)", q)
+            return None
+        return f
+
+    def islink(pth):
+        return False if sim(pth) is not None else real["islink"](pth)
+
+    def isdir(pth):
+        q = sim(pth)
+        if q is None:
+            return real["isdir"](pth) or os.fspath(pth).rstrip("/") + "/" == SIM_PREFIX
+        return False
+
+    def fsync_like(name):
+        def f(fd):
+            if isinstance(fd, int) and fd >= FAKE_FD_BASE:
+                disk.fire("fsync_called")
+                return None
+            return real[name](fd)
+        return f
+
+    out = {"exists": exists, "isfile": isfile, "getsize": getsize, "remove": remove, "unlink": remove,
+           "rename": rename, "replace": rename, "stat": stat, "lstat": stat, "access": access,
+           "chmod": noop_on_file("chmod"), "utime": noop_on_file("utime"), "islink": islink, "isdir": isdir,
+           "lexists": exists, "fsync": fsync_like("fsync"), "fdatasync": fsync_like("fdatasync")}
+    if "chown" in real:
+        out["chown"] = noop_on_file("chown")
+    return real, out
+
+
+FAKE_FD_BASE = 1 << 20
+PATH_FUNCS = ("exists", "isfile", "getsize", "islink", "isdir", "lexists")
 
 
 # ----------------------------------------------------------------------------- generator
@@ -763,6 +814,7 @@ def execute(trace):
         return raised, unrec
 
     last_replaced = [None]
+    last_exc = [None]
     import os as _os
     os_real, os_sim = make_os_seams(disk)
     logging.disable(logging.CRITICAL)
@@ -770,7 +822,7 @@ def execute(trace):
     builtins.open = sim_open
     io.open = sim_open
     for _k, _f in os_sim.items():
-        setattr(_os.path if _k in ("exists", "isfile", "getsize") else _os, _k, _f)
+        setattr(_os.path if _k in PATH_FUNCS else _os, _k, _f)
     try:
         try:
             site = "start"
@@ -928,10 +980,12 @@ def execute(trace):
                             continue
                         disk.arm(plan)
                         try:
+                            last_exc[0] = None
                             try:
                                 K(o.saveparameters, ["filename"], path)
                                 raised = None
                             except OSError as e:
+                                last_exc[0] = e
                                 raised = "OSError:%s" % errno.errorcode.get(e.errno, e.errno)
                             except Exception as e:  # noqa
                                 raised = type(e).__name__
@@ -945,6 +999,11 @@ def execute(trace):
                         outcome = raised or "ack"
                         if raised is not None:
                             count("save.raised")
+                            if not unrec and last_exc[0] is not None and not getattr(last_exc[0], "_xsim", False) \
+                                    and isinstance(last_exc[0], OSError):
+                                raise core.HarnessError(
+                                    "seam bypass: the code under test reached the real operating system with a path of the "
+                                    "simulated disk (%r); that call is not simulated, nothing can be concluded" % (last_exc[0],))
                             if not unrec:
                                 raise _Violation("save failed although no unrecoverable fault was injected", site,
                                                  "raised %s" % raised)
@@ -1157,7 +1216,7 @@ def execute(trace):
                          "op_index": len(events)}
     finally:
         for _k, _f in os_real.items():
-            setattr(_os.path if _k in ("exists", "isfile", "getsize") else _os, _k, _f)
+            setattr(_os.path if _k in PATH_FUNCS else _os, _k, _f)
         builtins.open = real_open
         io.open = real_io_open
         if had_attr:
